@@ -82,7 +82,22 @@ func TestC15Child(t *testing.T) {
 						if batch > 1 && i%5 == 0 {
 							fill = 500 + (i*37)%3000
 						}
-						m := message.New(ssidOf(c15Contract, lv), []byte(ch), []byte(fmt.Sprintf("%s-w%d-%d-%s", tag, w, i, strings.Repeat(string(rune('a'+w%26)), fill))))
+						if i%11 == 3 { // a body that does not compress (hex of a running hash), 5-9 KB
+							fill = 0
+						}
+						body := strings.Repeat(string(rune('a'+w%26)), fill)
+						if i%11 == 3 {
+							var sb strings.Builder
+							x := uint64(i)*0x9e3779b97f4a7c15 + uint64(w)
+							for sb.Len() < 5000+(i%4)*1300 {
+								x ^= x << 13
+								x ^= x >> 7
+								x ^= x << 17
+								sb.WriteString(strconv.FormatUint(x, 36))
+							}
+							body = sb.String()
+						}
+						m := message.New(ssidOf(c15Contract, lv), []byte(ch), []byte(fmt.Sprintf("%s-w%d-%d-%s", tag, w, i, body)))
 						m.TTL = uint32(1000000 + i%1000)
 						tries += fmt.Sprintf("TRY %s %s %d %s\n", hex.EncodeToString(m.ID), ch, m.TTL, m.Payload)
 						ms = append(ms, m)
